@@ -51,6 +51,13 @@ def check(ctx):
         "that articulation points / biconnected components / the DFS order are the true ones on every graph (C15)",
         "independence from set/dict iteration order inside biccs (hash randomisation) beyond the orientation fix-up",
     ]
+    # the decomposition itself: the structural rules of biccs (edge-stack discipline, cut criterion, low-link updates) are C15's
+    from . import c15 as _c15
+    from . import gfa_common as _gc
+
+    _g = _gc.build(ctx, "R15.5")
+    ctx.run_shared(_c15.r15_5, _g)
+    ctx.run_shared(_c15.r15_6, _g)
     # mechanisms this property rests on (see shared.py): a change there is reported here as well
     from . import shared as _sh
 
